@@ -75,6 +75,9 @@ type caseDesc struct {
 	Verify bool `json:"client_verifies_certificates,omitempty"`
 	// ForwardEnd (forward reachable): how the direct connections end: "" orderly, reset-by-application, reset-by-target
 	ForwardEnd string `json:"direct_connections_end,omitempty"`
+	// Stray: the client also listens for a channel that no server offers; while a logical connection is held open on
+	// the shared session a request for that channel is made (and refused): the session and the held connection stay
+	Stray bool `json:"request_for_a_channel_nobody_offers_meanwhile,omitempty"`
 }
 
 // endpoint is one upstream candidate as built by the harness.
@@ -389,10 +392,18 @@ func runCase(d caseDesc, abandonBound time.Duration) (problem string, inconclusi
 	}
 	lport := vlib.Port()
 	al.Address = addr.MustParseAddress(fmt.Sprintf("tcp://127.0.0.1:%d", lport))
+	lns := listener.Listeners{&listener.SocketListener{AbstractListener: al}}
+	strayListen := ""
+	if d.Stray {
+		sport := vlib.Port()
+		strayListen = vlib.HostPort(sport)
+		lns = append(lns, &listener.SocketListener{AbstractListener: listener.AbstractListener{ProtoName: addr.ProtoName{Name: "nochan"},
+			Address: addr.MustParseAddress(fmt.Sprintf("tcp://127.0.0.1:%d", sport))}})
+	}
 	cli := &clientCmd.Command{
 		ClientConfig: clientConfig(d),
 		Upstream:     upstream.Upstreams{Data: ups},
-		ListenList:   listener.Listeners{&listener.SocketListener{AbstractListener: al}},
+		ListenList:   lns,
 		Secure:       d.MustSecure,
 	}
 	if err := cli.Startup(make(chan os.Signal, 1)); err != nil {
@@ -471,6 +482,42 @@ func runCase(d caseDesc, abandonBound time.Duration) (problem string, inconclusi
 			return fmt.Sprintf("%d concurrent logical connections used %d physical connections to the chosen upstream, want 1", d.K, n), false
 		}
 	}
+	if d.Stray && exp >= 0 && d.Forward != "reachable" {
+		// one logical connection is held open; somebody asks for a channel no server has; the refusal is that
+		// request's own business: the held connection goes on working, over the same physical session
+		held, err := net.DialTimeout("tcp", listen, 5*time.Second)
+		if err != nil {
+			return "dial: " + err.Error(), false
+		}
+		defer held.Close()
+		held.SetDeadline(time.Now().Add(abandonBound))
+		if line, _ := vlib.ReadFullTimeout(held, len(wantBanner)+1, abandonBound); string(line) != wantBanner+"\n" {
+			return fmt.Sprintf("held connection was answered by %q, policy says %q", line, wantBanner), false
+		}
+		if sc, err := net.DialTimeout("tcp", strayListen, 5*time.Second); err == nil {
+			sc.SetDeadline(time.Now().Add(abandonBound))
+			sc.Write([]byte("anybody?"))
+			buf := make([]byte, 16)
+			if n, _ := sc.Read(buf); n > 0 {
+				sc.Close()
+				return fmt.Sprintf("a request for a channel no server offers was answered with %d bytes", n), false
+			}
+			sc.Close()
+		}
+		msg := []byte("still-here-0123456789")
+		held.Write(msg)
+		if got, err := vlib.ReadFullTimeout(held, len(msg), abandonBound); string(got) != string(msg) {
+			return fmt.Sprintf("after a request for a channel no server offers was refused, the logical connection that was open on the shared session no longer works (%d of %d bytes echoed, %v)", len(got), len(msg), err), false
+		}
+		if msg := round(1, "connection after a refused request"); msg != "" {
+			return msg, false
+		}
+		if eps[exp].relay != nil {
+			if n := eps[exp].relay.Connections(); n != 1 {
+				return fmt.Sprintf("after a refused request for a channel no server offers the client used %d physical connections to the chosen upstream, want 1", n), false
+			}
+		}
+	}
 	if d.Loss == "none" || exp < 0 || d.Forward == "reachable" {
 		return "", false
 	}
@@ -547,6 +594,9 @@ func describe(d caseDesc) []string {
 	if d.MustSecure {
 		labels = append(labels, "must-secure")
 	}
+	if d.Stray {
+		labels = append(labels, "refused-request-meanwhile")
+	}
 	return labels
 }
 
@@ -584,6 +634,7 @@ func TestPolicy(t *testing.T) {
 			d.ForwardEnd = []string{"", "reset-by-application", "reset-by-target"}[rapid.IntRange(0, 2).Draw(rt, "forwardEnd")]
 		}
 		d.K = rapid.IntRange(1, 5).Draw(rt, "k")
+		d.Stray = rapid.IntRange(0, 2).Draw(rt, "stray") == 0
 		d.Loss = []string{"none", "cut-rst", "cut-fin", "server-restart"}[rapid.IntRange(0, 3).Draw(rt, "loss")]
 		d.After = rapid.IntRange(1, 3).Draw(rt, "after")
 		if rapid.Bool().Draw(rt, "afterConcurrently") {
